@@ -189,7 +189,7 @@ package net
 //@   requires !e.handlersMutex.lockw && e.stream != nil
 //@   modifies everything
 //@   ensures !e.handlersMutex.lockw
-//@   ensures[C17] forall i int {at_unlock(e.handlers[i])} :: 0 <= i && i < at_lock(len(e.handlers)) ==> at_unlock(e.handlers[i]) == nil && (at_lock(e.handlers[i]) != nil ==> at_lock(e.handlers[i]).hclosed == 1 && at_lock(e.handlers[i]).consumer.chclosed)
+//@   ensures[C17,C11] forall i int {at_unlock(e.handlers[i])} :: 0 <= i && i < at_lock(len(e.handlers)) ==> at_unlock(e.handlers[i]) == nil && (at_lock(e.handlers[i]) != nil ==> at_lock(e.handlers[i]).hclosed == 1 && at_lock(e.handlers[i]).consumer.chclosed)
 //@   loop 1:
 //@     invariant e.handlersMutex.lockw && e.handlers == at_lock(e.handlers)
 //@     invariant forall k int {e.handlers[k]} :: 0 <= k && k <= rangeindex && k < len(e.handlers) ==> e.handlers[k] == nil && (at_lock(e.handlers[k]) != nil ==> at_lock(e.handlers[k]).hclosed == 1 && at_lock(e.handlers[k]).consumer.chclosed)
